@@ -252,6 +252,9 @@ func (x *confExec) do(op *confOp) {
 			return
 		}
 		m := map[string]any{"type": op.Kind, "source": sc.id, "username": sc.username, "value": op.V}
+		if sc.username == "" {
+			delete(m, "username") // protocol.js would send null: it does not know its username yet
+		}
 		if op.Sub != "" {
 			m["kind"] = op.Sub
 		}
@@ -297,6 +300,9 @@ func (x *confExec) do(op *confOp) {
 			return
 		}
 		m := map[string]any{"type": "useraction", "kind": op.Sub, "source": sc.id, "username": sc.username, "dest": destID(x, op.Dest)}
+		if sc.username == "" {
+			delete(m, "username")
+		}
 		if op.V != "" {
 			m["value"] = op.V
 		}
@@ -313,6 +319,9 @@ func (x *confExec) do(op *confOp) {
 			return
 		}
 		m := map[string]any{"type": "groupaction", "kind": op.Sub, "source": sc.id, "username": sc.username}
+		if sc.username == "" {
+			delete(m, "username")
+		}
 		if op.V != "" {
 			m["value"] = op.V
 		}
